@@ -564,6 +564,7 @@ func main() {
 		analyse(a, r)
 	}
 	publishFacts(a)
+	lockNameFacts(a)
 }
 
 // structs and package-level variables of the resolution-path packages that carry a mutex
